@@ -39,6 +39,12 @@ def mk(ctx, r, form=0):
             return Segment(pt(ctx, r.a), vec(ctx, r.d))
         return Segment(pt(ctx, r.a), pt(ctx, r.b))
     if k == 'Plane':
+        if form == 1:        # three points (needs a concrete normal to pick two in-plane directions)
+            from refgeo.hrep import _perp_pair
+            a, b = _perp_pair(r.n)
+            return Plane(pt(ctx, r.p), pt(ctx, R.vadd(r.p, a)), pt(ctx, R.vadd(r.p, b)))
+        if form == 2:        # general form a x + b y + c z = d with the (non-unit) normal as given
+            return Plane(ctx.lib(r.n[0]), ctx.lib(r.n[1]), ctx.lib(r.n[2]), ctx.lib(R.dot(r.n, r.p)))
         return Plane(pt(ctx, r.p), vec(ctx, r.n))
     if k == 'ConvexPolygon':
         return ConvexPolygon(tuple(pt(ctx, v) for v in r.v))
@@ -49,9 +55,8 @@ def mk(ctx, r, form=0):
 
 def coords(p):
     """observed coordinates of a library Point / Vector"""
-    if isinstance(p, Point):
-        return (p.x, p.y, p.z)
-    return (p[0], p[1], p[2])
+    t = (p.x, p.y, p.z) if isinstance(p, Point) else (p[0], p[1], p[2])
+    return tuple(F(c) if isinstance(c, float) else c for c in t)
 
 
 def kind_of(x):
